@@ -1,5 +1,6 @@
 import QibGen.GatesReal
 import QibProofs.Lemmas.GateAlgebra
+import QibProofs.Lemmas.GateFlat
 import Mathlib.Tactic.NormNum
 import Mathlib.Tactic.Positivity
 /-!
@@ -260,5 +261,21 @@ theorem C02_controlled_mulVec (cs : κ) (U : Matrix ι ι ℂ) (c : κ) (ψ : ι
     · simp [hk]
 
 end Ctrl
+
+/-! ### the executable (flat-index) model: control pattern is read most-significant control first -/
+
+/-- the block index computed by the loop of `ControlledGate.as_matrix` is the binary value of `ctrl_state`
+with the FIRST control as the MOST significant bit; it is a valid block index and different patterns select
+different blocks ("exactly on the control pattern") -/
+theorem C02_ctrlIndex_msb_first (cs : List Bool) :
+    Qib.Gate.ctrlIndex cs = Qib.GateFlat.ofBitsMSB cs ∧ Qib.Gate.ctrlIndex cs < 2 ^ cs.length := by
+  rw [Qib.GateFlat.ctrlIndex_msb]; exact ⟨rfl, Qib.GateFlat.ofBitsMSB_lt cs⟩
+
+theorem C02_ctrlIndex_injective (cs ds : List Bool) (hl : cs.length = ds.length)
+    (h : Qib.Gate.ctrlIndex cs = Qib.Gate.ctrlIndex ds) : cs = ds := by
+  rw [Qib.GateFlat.ctrlIndex_msb, Qib.GateFlat.ctrlIndex_msb] at h
+  exact Qib.GateFlat.ofBitsMSB_injective cs ds hl h
+
+example : Qib.Gate.ctrlIndex [true, false, false] = 4 := by decide
 
 end Qib.C02
